@@ -85,6 +85,12 @@ def run(ctx):
         except AnalysisError as e:
             ctx.undecided('ALG-15r', 'SED.read wiring', loc(repo.func('sed.sed', 'SED.read')), 'structure not recognised: %s' % e)
 
+    check_unit_strings(ctx)
+
+
+def check_unit_strings(ctx):
+    """parse_unit_safe interpreted on the legacy strings old files carry and on strings astropy reads itself"""
+    repo = ctx.repo
     # ---- unit string parsing: parse_unit_safe interpreted on the legacy strings old files carry
     common.api_literal_rule(ctx, ['sed.helpers'], min_sites=1)
     from ..fitsem import FitsHooks
@@ -97,6 +103,18 @@ def run(ctx):
             v = I._as_arr(v)
         compare(ctx, 'ALG-15m', 'parse_unit_safe(%r)' % k, loc(pus), v if isinstance(v, (Arr, Unk)) else Unk('parse_unit_safe(%r) gives %r' % (k, v)), want_u, (), vocab=set(),
                 detail_ok='%s -> %s' % (k, alg.show(want_u)))
+
+
+    # ... and on strings astropy reads itself, which keep their meaning (case matters: 'MJy' is megajansky, 'mJy' millijansky)
+    plain = {'MJy': sym('unit:MJy'), 'mJy': sym('unit:mJy'), 'Jy': sym('unit:Jy'), 'Hz': sym('unit:Hz'), 'micron': sym('unit:micron'), 'um': sym('unit:micron'),
+             'cm': sym('unit:cm'), 'au': sym('unit:au'), 'pc': sym('unit:pc')}
+    for k, want_u in plain.items():
+        I = Interp(repo, FitsHooks())
+        v = I.call(pus, [k])
+        if not isinstance(v, (Arr, Unk)):
+            v = I._as_arr(v)
+        compare(ctx, 'ALG-15m', 'parse_unit_safe(%r)' % k, loc(pus), v if isinstance(v, (Arr, Unk)) else Unk('parse_unit_safe(%r) gives %r' % (k, v)), want_u, (), vocab=set(),
+                detail_ok='%s is the unit astropy reads from that string' % k)
 
 
 def syntactic_read_wiring(ctx):
